@@ -110,9 +110,13 @@ def dtype_match(schema_dt, phys_dt, values):
             return ("cells", bad) if bad else "ok"
         if phys_dt in ("string", "category"):
             return "unspec"
-        # the documented meaning of `str` is "object column holding strings"; an empty container of
-        # another physical type has no element to object to -> not settled by the docs
-        return "bad" if len(values) else "unspec"
+        # `str` is checked element by element ("object column holding strings"): every non-null
+        # element of another physical type is an offending cell; an empty container of another
+        # physical type has no element to object to -> not settled by the docs
+        bad = [i for i, v in enumerate(values) if not is_null(v)]
+        if bad:
+            return ("cells", bad)
+        return "unspec"
     if schema_dt == "object":
         if phys_dt == "object":
             return "ok"
@@ -277,9 +281,11 @@ def _eval_index(ref, ix_spec, table, n):
     if None in tnames or None in snames or len(set(tnames)) != len(tnames) or tnames != snames:
         ref.unspec.append("MultiIndex level matching beyond identical unique names")
         return
+    labels = [tuple(l["values"][i] for l in tix["levels"]) for i in range(n)]
     for lvl, tl in zip(ix_spec["levels"], tix["levels"]):
         comp = S.full(lvl)
-        _eval_component(ref, comp, list(tl["values"]), tl["dtype"], "MultiIndex", comp["name"], positions, where="index")
+        # the MultiIndex is validated as a frame indexed by itself: row keys are the label tuples
+        _eval_component(ref, comp, list(tl["values"]), tl["dtype"], "MultiIndex", comp["name"], labels, where="index")
     if ix_spec.get("unique"):
         ref.unspec.append("MultiIndex joint uniqueness")
 
